@@ -4,7 +4,7 @@ META = {
     "title": "Byte-slice APIs are alignment-independent and stay inside their buffers",
     "design_ref": "6/C16",
     "technique": "Coq proof about an ADDRESSED memory model (byte list + (offset,length) slices + partial accessors) of the generic shapes the crates use, plus directed differential runs of every byte-slice API under guard pages (mmap/mprotect, canaries, 64 alignments x 2 placements abutting unmapped pages, child processes) compared with the run on an ordinary aligned buffer",
-    "level_text": "PARTIAL. Machine-checked (Props/C16.v, 13 theorems, all closed): for key-stream application (buffered prefix / chunks_exact(256) / 64-byte tail), block-buffer absorption (hash update), StoreBytes read/write with its length assertion incl. the x2/x4 compositions, and in-place block operations, for ALL memories, offsets and lengths: no access leaves the slice (C16_*_reads_in_bounds), memory outside the slice and the size of memory are unchanged also on panic (C16_*_writes_exactly / _safe), the result is a function of content and length only (C16_*_address_independent; C16_apply_keystream_value: content afterwards = content xor the key stream determined by state and length), chunk splitting covers the data exactly once (C16_chunks_cover, C16_apply_segments_partition). OBSERVED, not proved: that the compiled code performs no out-of-slice or aligned-only access that leaves the value unchanged.",
+    "level_text": "PARTIAL. Machine-checked (Props/C16.v, 30 theorems, all closed), for ALL memories, slice base addresses (= alignments) and lengths: (1) the FULL try_apply_keystream (lazy refill after a mid-block seek, len/fresh limit with the Err return, buffered prefix, 256-byte wide chunks, 64-byte tail incl. the partial block), written with accessors that fail outside the slice and run with the REAL block producers, never leaves the slice, changes nothing outside it, and returns exactly what the faithful model of C02/C11 (Model/ChaChaStream.v) returns on the slice's bytes (C16_stream_apply_real_eq_faithful_model); on every reachable cipher state that is the specified key stream xor the data, or Err with memory untouched (C16_stream_apply_reachable_value, C16_stream_apply_err_untouched); the simplified m_apply of the first theorems and of the runner is its special case (C16_m_apply_is_special_case[_real]); (2) hash update in both forms, eager input_block (Groestl, JH, BLAKE) and lazy input_lazy (Skein): reads only inside the slice, equals the block-buffer model on the bytes; (3) StoreBytes read_le/write_le/read_be/write_be and their x2 and x4 compositions: Ok exactly for the asserted lengths, the value read / the bytes written in address order, any other length is the panic with memory outside the slice unchanged, never an out-of-slice access; (4) in-place block operations; chunk splitting covers the data exactly once (C16_chunks_cover, C16_apply_segments_partition). OBSERVED, not proved (guard pages / canaries, h_mem): that the compiled code - intrinsics, unsafe pointer code in ppv-lite86 and the compression functions, rustc's code generation - performs no access outside the slice and needs no alignment when such an access would not change any value, and that the real entry points hand exactly these slices to the modelled shapes.",
     "level_note": "Proved: the byte-level contract of the model (which keeps addresses, so address independence is a theorem, not a by-construction fact). Only observed (h_mem, this run's counts are in coverage.configurations): every API of the 7 ChaCha types (apply_keystream, new(key), new(nonce)), update and finalize_into of the 15 hash types, Threefish-256/512/1024 encrypt_block/decrypt_block/new(key), StoreBytes read_le/read_be/write_le/write_be of the 5 vector types that have it on SSE2/SSSE3/SSE4.1(AVX)/AVX2 machines, each on a slice starting a bytes after the first / ending a bytes before the last mapped byte (a = 0..63; a = 0 abuts a PROT_NONE page) at every length class, plus a sweep of 64 consecutive lengths per class at a = 0 so that the free end takes every alignment; result, slice content, ok/panic outcome equal to the aligned-buffer run; canary outside the slice intact; signals reported per case. Groestl's AES-NI/SSSE3/SSE2 choice cannot be forced without a hook (host choice only). Tie model <-> code: a sample of cases (memory window before/after) is recomputed by Run/SliceApi.v with oracle bytes from the aligned run.",
     "rule": "case = (API, placement head|tail, a in 0..63, length, pre-state code); distinct = distinct tuples; non-trivial = length > 0; each case: guarded run vs aligned-heap run of the same implementation (direct_failures = violations with the placement as replay); a sample of <= 480 cases per configuration is re-computed in coqc by the addressed model (disagreement alone = correspondence broken)",
     "assumptions": ["little-endian x86-64 Linux host, 4 KiB pages", "an out-of-slice access that stays inside the same mapped page run and changes neither the result nor the canary is invisible to the runs"],
